@@ -176,29 +176,31 @@ func TestGovcMarkupReplay(t *testing.T) {
 	evals, nontrivial := 0, 0
 	defer func() {
 		fmt.Printf("GOVC-CASES evaluations=%d distinct_nontrivial=%d rule=%s\n", evals, nontrivial,
-			"9 OpenGraph states (absent, complete, minimal, profile, one required property missing/empty) x 4 schema.org states x 4 IE Reading View states x 4 opt-out variants, unique values per source; plus 14 value shapes of the URL-valued properties (https, protocol-relative, root-relative, relative, ../, query strings, upper-case scheme, surrounding white space, inner space, data: URI, bare word, port+userinfo) x 8 targets (og:image / og:url / both, schema.org image / url / both as meta or as link+img, all) x 4 OpenGraph states x 2 schema.org states, and 8 multi-image OpenGraph blocks (several og:image, og:image:url overrides, mixed shapes) x 2 x 2; oracle = per-field first non-empty in the order OG(valid only), schema.org, IE, surrounding white space ignored; non-trivial = at least one source present in the page")
+			"9 OpenGraph states (absent, complete, minimal, profile, one required property missing/empty) x 4 schema.org states x 4 IE Reading View states x 4 opt-out variants, unique values per source; plus 14 value shapes of the URL-valued properties (https, protocol-relative, root-relative, relative, ../, query strings, upper-case scheme, surrounding white space, inner space, data: URI, bare word, port+userinfo) x 8 targets (og:image / og:url / both, schema.org image / url / both as meta or as link+img, all) x 4 OpenGraph states x 2 schema.org states, and 8 multi-image OpenGraph blocks (several og:image, og:image:url overrides, mixed shapes) x 2 x 2; plus the POSITION of the markup in the page: 15 positions of a moved group of metas (start / end of body, inside a body div, in head but after a tracking img / div / iframe / stray text that makes the parser close the head early, a pixel at the very start of head, before <head>, after </body>, after </html>, repeated in head and body, repeated before and after the pixel, inside <noscript> in head / body) x moved group {OpenGraph metas, IE reading-view metas, IE_RM_OFF, all} x 3 OpenGraph states x 2 schema.org x 3 IE x 3 opt-out variants (cases where the moved group is empty skipped): the outcome must be that of the same metas in a clean head (repeated list entries compared as sets; for <noscript> either reading - metas count / do not count - is accepted per case, but it must be the same reading for every source), and 7 places of the schema.org item (itemscope on html with the itemprop metas in body or in head, on body, on article, on a late / nested div, on a section in an article) x {clean head, head closed early by a pixel} x 3 x 3 x 2 x 2; oracle = per-field first non-empty in the order OG(valid only), schema.org, IE, surrounding white space ignored; non-trivial = at least one source present in the page")
 	}()
 	type optOut struct {
 		key, meta string
 		out       bool
 	}
-	eval := func(key string, og, sc, ie govcC14Src, oo optOut) {
-		src := `<html><head><title>Plain document title for the page</title>` + og.head + sc.head + ie.head + oo.meta +
-			`</head><body><div id="main">` + sc.body + ie.body + govcC14Prose + `</div></body></html>`
-		res, err := ApplyForReader(strings.NewReader(src), nil)
-		evals++
-		if err != nil {
-			t.Errorf("GOVC-FAIL %s :: precedence case returned error %v", key, err)
-			return
+	// mismatches compares the observed MarkupInfo with what the precedence rule demands for the three sources
+	// and the opt-out flag; it returns one (field, message) pair per deviating field.
+	listsAsSets := false // set for pages that repeat a block of metas: a repeated list entry (og:image, article:author) may be reported once or twice
+	dedupe := func(l []string) []string {
+		if !listsAsSets {
+			return l
 		}
-		if og.head != "" || sc.body != "" || ie.head != "" || ie.body != "" {
-			nontrivial++
+		seen, out := map[string]bool{}, []string{}
+		for _, v := range l {
+			if !seen[v] {
+				seen[v] = true
+				out = append(out, v)
+			}
 		}
+		return out
+	}
+	mismatches := func(res *Result, og, sc, ie govcC14Src, out bool, ooMeta string) [][2]string {
+		var bad [][2]string
 		got := res.MarkupInfo
-		if evals <= 3 {
-			fmt.Printf("GOVC-SAMPLE %s -> Title=%q Type=%q URL=%q Author=%q Article=%+v images=%d\n", key, got.Title, got.Type, got.URL, got.Author, got.Article, len(got.Images))
-		}
-
 		// expected value per field
 		srcs := []govcC14Src{og, sc, ie}
 		type field struct{ name, got, want string }
@@ -231,7 +233,7 @@ func TestGovcMarkupReplay(t *testing.T) {
 				break
 			}
 		}
-		fields = append(fields, field{"Images", strings.Join(gotImages, ","), strings.Join(wantImages, ",")})
+		fields = append(fields, field{"Images", strings.Join(dedupe(gotImages), ","), strings.Join(dedupe(wantImages), ",")})
 		var art govcC14Src
 		for _, s := range srcs {
 			if s.usable && s.hasArticle {
@@ -244,25 +246,57 @@ func TestGovcMarkupReplay(t *testing.T) {
 			field{"Article.ModifiedTime", got.Article.ModifiedTime, art.artMod},
 			field{"Article.ExpirationTime", got.Article.ExpirationTime, art.artExp},
 			field{"Article.Section", got.Article.Section, art.artSection},
-			field{"Article.Authors", strings.Join(got.Article.Authors, ","), strings.Join(art.artAuthors, ",")},
+			field{"Article.Authors", strings.Join(dedupe(got.Article.Authors), ","), strings.Join(dedupe(art.artAuthors), ",")},
 		)
 		for _, f := range fields {
 			want := f.want
-			if oo.out {
+			if out {
 				want = ""
 			}
 			// surrounding white space of a value is not significant (schema.org values are trimmed by their source)
 			if strings.TrimSpace(f.got) != strings.TrimSpace(want) {
-				if oo.out {
-					t.Errorf("GOVC-FAIL %s/%s :: page opts out (%s) but MarkupInfo.%s = %q; precedence rule demands an entirely empty MarkupInfo", key, f.name, oo.meta, f.name, f.got)
+				if out {
+					bad = append(bad, [2]string{f.name, fmt.Sprintf("page opts out (%s) but MarkupInfo.%s = %q; precedence rule demands an entirely empty MarkupInfo", ooMeta, f.name, f.got)})
 				} else {
-					t.Errorf("GOVC-FAIL %s/%s :: MarkupInfo.%s = %q, precedence OpenGraph(valid)>schema.org>IE demands %q", key, f.name, f.name, f.got, want)
+					bad = append(bad, [2]string{f.name, fmt.Sprintf("MarkupInfo.%s = %q, precedence OpenGraph(valid)>schema.org>IE demands %q", f.name, f.got, want)})
 				}
 			}
 		}
-		if oo.out && (len(got.Images) != 0 || len(got.Article.Authors) != 0) {
-			t.Errorf("GOVC-FAIL %s/lists :: page opts out but MarkupInfo has %d images and %d article authors; precedence rule demands an entirely empty MarkupInfo", key, len(got.Images), len(got.Article.Authors))
+		if out && (len(got.Images) != 0 || len(got.Article.Authors) != 0) {
+			bad = append(bad, [2]string{"lists", fmt.Sprintf("page opts out but MarkupInfo has %d images and %d article authors; precedence rule demands an entirely empty MarkupInfo", len(got.Images), len(got.Article.Authors))})
 		}
+		return bad
+	}
+	// run distils one page and counts it; present = at least one markup source is in the page
+	run := func(key, src string, present bool) *Result {
+		res, err := ApplyForReader(strings.NewReader(src), nil)
+		evals++
+		if err != nil {
+			t.Errorf("GOVC-FAIL %s :: precedence case returned error %v", key, err)
+			return nil
+		}
+		if present {
+			nontrivial++
+		}
+		if evals <= 3 {
+			got := res.MarkupInfo
+			fmt.Printf("GOVC-SAMPLE %s -> Title=%q Type=%q URL=%q Author=%q Article=%+v images=%d\n", key, got.Title, got.Type, got.URL, got.Author, got.Article, len(got.Images))
+		}
+		return res
+	}
+	evalSrc := func(key, src string, og, sc, ie govcC14Src, oo optOut) {
+		res := run(key, src, og.head != "" || sc.body != "" || ie.head != "" || ie.body != "")
+		if res == nil {
+			return
+		}
+		for _, b := range mismatches(res, og, sc, ie, oo.out, oo.meta) {
+			t.Errorf("GOVC-FAIL %s/%s :: %s", key, b[0], b[1])
+		}
+	}
+	eval := func(key string, og, sc, ie govcC14Src, oo optOut) {
+		src := `<html><head><title>Plain document title for the page</title>` + og.head + sc.head + ie.head + oo.meta +
+			`</head><body><div id="main">` + sc.body + ie.body + govcC14Prose + `</div></body></html>`
+		evalSrc(key, src, og, sc, ie, oo)
 	}
 	for _, ogs := range ogStates {
 		for _, scs := range schemaStates {
@@ -339,6 +373,175 @@ func TestGovcMarkupReplay(t *testing.T) {
 				og.head = strings.Replace(og.head, govcC14Meta("property", "og:image", "http://og.example/img.png"), m.head, 1)
 				og.ims = m.want
 				eval(fmt.Sprintf("multi-%s/og-%s/schema-%s", m.name, ogs, scs), og, govcC14Schema(scs), govcC14IE("complete"), none)
+			}
+		}
+	}
+
+	// ---- WHERE the markup sits in the byte stream / in the parsed tree (appended; the keys above are unchanged) ----
+	// The precedence rule and the opt-out speak about what the page provides, not about where in the page a
+	// <meta> stands: a reading-view / OpenGraph meta that the author wrote into <head> ends up in <body> of the
+	// parsed tree as soon as anything that is not head content (a tracking pixel, a <div>, an <iframe>, stray
+	// text) precedes it. So the outcome for a moved group of metas must be what it is for the same metas in a clean <head>.
+	pixel := `<img src="http://stats.example/pixel.gif" width="1" height="1" alt="">`
+	type slots struct{ preHead, headFirst, head, bodyStart, bodyEnd, afterBody, afterHTML string }
+	page := func(sl slots, htmlAttr, bodyAttr, mainOpen, mainClose string, sc, ie govcC14Src) string {
+		return `<html` + htmlAttr + `>` + sl.preHead + `<head>` + sl.headFirst + `<title>Plain document title for the page</title>` + sl.head +
+			`</head><body` + bodyAttr + `>` + mainOpen + `<div id="main">` + sl.bodyStart + sc.body + ie.body + govcC14Prose + sl.bodyEnd + `</div>` + mainClose +
+			`</body>` + sl.afterBody + `</html>` + sl.afterHTML
+	}
+	positions := []struct {
+		key      string
+		noscript bool
+		allOnly  bool // only generated with every group moved (a "head-and-" position repeats the moved block: list entries compared as sets)
+		place    func(fixed, moved string) slots
+	}{
+		{"body-start", false, false, func(f, m string) slots { return slots{head: f, bodyStart: m} }},
+		{"body-end", false, false, func(f, m string) slots { return slots{head: f, bodyEnd: m} }},
+		{"body-div", false, false, func(f, m string) slots {
+			return slots{head: f, bodyStart: `<div class="page-meta"><span>` + m + `</span></div>`}
+		}},
+		{"head-after-img", false, false, func(f, m string) slots { return slots{head: f + pixel + m} }},
+		{"head-after-div", false, false, func(f, m string) slots { return slots{head: f + `<div class="consent-banner"></div>` + m} }},
+		{"head-after-iframe", false, false, func(f, m string) slots {
+			return slots{head: f + `<iframe src="http://stats.example/frame.html" width="0" height="0"></iframe>` + m}
+		}},
+		{"head-after-text", false, false, func(f, m string) slots { return slots{head: f + ` stray ` + m} }},
+		{"head-start-img", false, true, func(f, m string) slots { return slots{headFirst: pixel, head: f + m} }},
+		{"before-head", false, false, func(f, m string) slots { return slots{preHead: m, head: f} }},
+		{"after-body", false, false, func(f, m string) slots { return slots{head: f, afterBody: m} }},
+		{"after-html", false, false, func(f, m string) slots { return slots{head: f, afterHTML: m} }},
+		{"head-and-body", false, false, func(f, m string) slots { return slots{head: f + m, bodyEnd: m} }},
+		{"head-and-after-img", false, false, func(f, m string) slots { return slots{head: f + m + pixel + m} }},
+		{"noscript-head", true, false, func(f, m string) slots { return slots{head: f + `<noscript>` + m + `</noscript>`} }},
+		{"noscript-body", true, false, func(f, m string) slots { return slots{head: f, bodyStart: `<noscript>` + m + `</noscript>`} }},
+	}
+	posOptOuts := []optOut{{"none", "", false}, {"off-true", `<meta name="IE_RM_OFF" content="true">`, true}, {"off-false", `<meta name="IE_RM_OFF" content="false">`, false}}
+	// whether the metas inside <noscript> count is not fixed by the rule (with scripting they are text, not
+	// elements), but it has to be the same answer for every source: seen[position][answer] collects the evidence
+	noscriptSeen := map[string]map[bool]string{}
+	for _, pos := range positions {
+		for _, moved := range []string{"og", "ie", "optout", "all"} {
+			if pos.allOnly && moved != "all" {
+				continue
+			}
+			for _, ogs := range []string{"complete", "miss-image", "absent"} {
+				for _, scs := range []string{"complete", "absent"} {
+					for _, ies := range []string{"complete", "metas", "absent"} {
+						for _, oo := range posOptOuts {
+							og, sc, ie := govcC14OG(ogs), govcC14Schema(scs), govcC14IE(ies)
+							parts := []struct{ name, markup string }{{"og", og.head}, {"ie", ie.head}, {"optout", oo.meta}}
+							fixed, mv, nMoved := "", "", 0
+							for _, p := range parts {
+								if moved == "all" || moved == p.name {
+									mv += p.markup
+									if p.markup != "" {
+										nMoved++
+									}
+								} else {
+									fixed += p.markup
+								}
+							}
+							if nMoved == 0 || (moved == "all" && nMoved < 2 && !pos.allOnly) {
+								continue // nothing to move, or the same page as a single-group case
+							}
+							key := fmt.Sprintf("pos-%s/moved-%s/og-%s/schema-%s/ie-%s/optout-%s", pos.key, moved, ogs, scs, ies, oo.key)
+							src := page(pos.place(fixed, mv), "", "", "", "", sc, ie)
+							if !pos.noscript {
+								listsAsSets = strings.HasPrefix(pos.key, "head-and-")
+								evalSrc(key, src, og, sc, ie, oo)
+								listsAsSets = false
+								continue
+							}
+							res := run(key, src, true)
+							if res == nil {
+								continue
+							}
+							// the expectation when the metas in <noscript> do not count
+							ogU, ieU, ooU := og, ie, oo
+							if moved == "all" || moved == "og" {
+								ogU = govcC14Src{}
+							}
+							if moved == "all" || moved == "ie" {
+								ieU.title, ieU.copyright, ieU.artPub = "", "", ""
+							}
+							if moved == "all" || moved == "optout" {
+								ooU = optOut{"none", "", false}
+							}
+							badSeen, badUnseen := mismatches(res, og, sc, ie, oo.out, oo.meta), mismatches(res, ogU, sc, ieU, ooU.out, ooU.meta)
+							switch {
+							case len(badSeen) == 0 && len(badUnseen) == 0: // no difference between the two readings
+							case len(badSeen) == 0 || len(badUnseen) == 0:
+								if noscriptSeen[pos.key] == nil {
+									noscriptSeen[pos.key] = map[bool]string{}
+								}
+								if noscriptSeen[pos.key][len(badSeen) == 0] == "" {
+									noscriptSeen[pos.key][len(badSeen) == 0] = key
+								}
+							default:
+								t.Errorf("GOVC-FAIL %s/%s :: metas inside <noscript>: the result fits neither the reading in which they count (%s) nor the one in which they do not (%s)", key, badSeen[0][0], badSeen[0][1], badUnseen[0][1])
+							}
+						}
+					}
+				}
+			}
+		}
+	}
+	for _, pos := range positions {
+		if pos.noscript {
+			fmt.Printf("GOVC-INFO markup %s: first case in which the metas inside <noscript> count: %q, first case in which they do not: %q\n", pos.key, noscriptSeen[pos.key][true], noscriptSeen[pos.key][false])
+		}
+		if ev := noscriptSeen[pos.key]; len(ev) == 2 {
+			t.Errorf("GOVC-FAIL pos-%s/consistency :: metas inside <noscript> are honoured in case %s but ignored in case %s; the precedence/opt-out rule must not treat the sources differently by position", pos.key, ev[true], ev[false])
+		}
+	}
+
+	// ---- where the schema.org item sits: itemscope on <html>, <body>, <article>, a <div> early/late/nested, its
+	// <meta itemprop> children in body or (root <html>) in head, crossed with a head that the parser closes early ----
+	scope := ` itemscope itemtype="http://schema.org/Article"`
+	roots := []string{"html", "html-props-in-head", "body", "article", "div-end", "div-nested", "section-in-article"}
+	for _, root := range roots {
+		for _, headPos := range []string{"head", "head-after-img"} {
+			for _, ogs := range []string{"complete", "miss-image", "absent"} {
+				for _, scs := range []string{"complete", "alt", "sparse"} {
+					for _, ies := range []string{"complete", "absent"} {
+						for _, oo := range posOptOuts[:2] {
+							og, sc, ie := govcC14OG(ogs), govcC14Schema(scs), govcC14IE(ies)
+							props := strings.TrimSuffix(strings.TrimPrefix(sc.body, `<div itemscope itemtype="http://schema.org/Article">`), `</div>`)
+							sl := slots{head: og.head + ie.head + oo.meta}
+							if headPos == "head-after-img" {
+								sl.head = pixel + sl.head
+							}
+							htmlAttr, bodyAttr, mainOpen, mainClose := "", "", "", ""
+							scPlaced := sc
+							scPlaced.body = ""
+							switch root {
+							case "html":
+								htmlAttr, sl.bodyStart = scope, props
+							case "html-props-in-head":
+								htmlAttr, sl.head = scope, sl.head+props
+							case "body":
+								bodyAttr, sl.bodyStart = scope, props
+							case "article":
+								mainOpen, mainClose, sl.bodyStart = `<article`+scope+`>`, `</article>`, props
+							case "div-end":
+								sl.bodyEnd = sc.body
+							case "div-nested":
+								sl.bodyStart = `<div class="wrap"><div class="inner"><section>` + sc.body + `</section></div></div>`
+							case "section-in-article":
+								mainOpen, mainClose, sl.bodyStart = `<article>`, `</article>`, `<section`+scope+`><header>`+props+`</header></section>`
+							}
+							key := fmt.Sprintf("schemaroot-%s/metas-%s/og-%s/schema-%s/ie-%s/optout-%s", root, headPos, ogs, scs, ies, oo.key)
+							src := page(sl, htmlAttr, bodyAttr, mainOpen, mainClose, scPlaced, ie)
+							res := run(key, src, true)
+							if res == nil {
+								continue
+							}
+							for _, b := range mismatches(res, og, sc, ie, oo.out, oo.meta) {
+								t.Errorf("GOVC-FAIL %s/%s :: %s", key, b[0], b[1])
+							}
+						}
+					}
+				}
 			}
 		}
 	}
